@@ -207,6 +207,9 @@ func Select(cases []SelectCase) (int, Value, bool) {
 				rc[i] = reflect.SelectCase{Dir: reflect.SelectRecv, Chan: reflect.ValueOf((chan struct{})(nil))}
 				continue
 			}
+			if !rc[i].Chan.IsValid() {
+				continue
+			}
 			rc[i].Chan = reflect.Zero(rc[i].Chan.Type())
 		}
 	}
